@@ -612,7 +612,7 @@ func init() {
 		Post:              postC09,
 		Config:            func(cs Case) simrt.Config { return simrt.Config{NoJumps: true, MaxSteps: 100000} },
 		BudgetIsViolation: true,
-		RaceCompanion:     "C09R",
+		RaceCompanion:     "C09R,C09SR",
 		Companions:        []string{"C09S"},
 		QuickRuns:         50000,
 		ThoroughRuns:      400000,
